@@ -185,6 +185,8 @@ def assemble(I):
         args += tuple([[]])
     elif rule in ('norm_lia', 'norm_lra'):
         args = list(I['cl'])        # helper macros of la_generic: args = [term]
+    elif rule in ('conj_pts', 'disj_pts'):
+        args = None                 # helper macros of ac_simp: only premises
     return macro, args, prevs
 
 
@@ -1279,6 +1281,20 @@ def t_bfun_elim(g):
     return inst('bfun_elim', [Or(And(false, q), And(true, q))], [g.assume(Exists(b, And(b, q)))])
 
 
+@template('conj_pts', 'disj_pts')
+def t_pts(g):
+    """helpers of ac_simp: from A_i <-> B_i conclude /\\A_i <-> /\\B_i (duplicates removed on the right)"""
+    from kernel.term import Eq, Not
+    n = g.rng.choice([2, 3])
+    ps = g.forms(n, d=0)
+    prevs = []
+    for p in ps:
+        q = g.rng.choice([p, Not(Not(p)), ps[0]])
+        prevs.append(g.assume(Eq(p, q)))
+    rule = g.rng.choice(['conj_pts', 'disj_pts'])
+    return inst(rule, [], prevs)
+
+
 RULES = sorted(TEMPLATES)
 
 
@@ -1962,3 +1978,12 @@ def h_ac_simp(g):
     x, y = g.rng.sample(g.ints, 2)
     c = Int(g.rng.randint(1, 5))
     return _h(inst('ac_simp', [Eq(op(op(a, Eq(x + y, c)), b), op(a, Eq(x - y, c), b))]), 'operator-differs')
+
+
+@hostile('implies')
+def h_implies(g):
+    """premise is not an implication (only its two arguments are read)"""
+    from kernel.term import And, Or, Eq, Not
+    a, b = g.forms(2, d=0, distinct=True)
+    op = g.rng.choice([And, Or, Eq])
+    return _h(inst('implies', [Not(a), b], [g.assume(op(a, b))]), 'premise-head')
